@@ -90,6 +90,10 @@ type fixtures struct {
 
 	upstreamQueries atomic.Int64
 	closers         []func()
+
+	// pipe gates the stub upstreams for the queries of the pipeline script
+	// (pipebin_test.go); nil in the configuration check.
+	pipe *pipeGate
 }
 
 const (
@@ -316,6 +320,9 @@ func (fx *fixtures) startUpstream() (addr string, stop func(), err error) {
 // TXT answer for bigHost.
 func (fx *fixtures) answer(w dns.ResponseWriter, req *dns.Msg) {
 	fx.upstreamQueries.Add(1)
+	if g := fx.pipe; g != nil && len(req.Question) == 1 {
+		g.hold(req.Question[0].Name)
+	}
 	m := new(dns.Msg)
 	m.SetReply(req)
 	m.RecursionAvailable = true
